@@ -56,8 +56,8 @@ def judgeMap (fs : List (List Char)) : String :=
               let mo := showOpt toString (m.get q)
               let so := showOpt toString (getSpec es q)
               let io := if impl == "none".toList then "none" else "some(" ++ String.ofList impl ++ ")"
-              if io != mo then s!"MODEL\tget {escape q}: model={mo} impl={io}"
-              else if distinct && io != so then s!"SPEC\tget {escape q}: spec={so} impl={io}"
+              if distinct && io != so then s!"SPEC\tget {escape q}: spec={so} impl={io} model={mo}"
+              else if io != mo then s!"MODEL\tget {escape q}: model={mo} impl={io}"
               else qry fuel fs'
             | _ => "BAD\tquery fields"
         qry (qs.length + 1) qs
@@ -71,8 +71,8 @@ def judge (fs : List (List Char)) : String :=
       let m := b2s (compat a b)
       let s := b2s (compatSpec a b)
       let i := String.ofList impl
-      if i != m then s!"MODEL\tcompat model={m} impl={i}"
-      else if i != s then s!"SPEC\tcompat spec={s} impl={i}"
+      if i != s then s!"SPEC\tcompat spec={s} impl={i} model={m}"
+      else if i != m then s!"MODEL\tcompat model={m} impl={i}"
       else "ok"
     else if k == "vlt".toList then
       match parseVersion a, parseVersion b with
